@@ -22,7 +22,7 @@ import (
 func TestMain(m *testing.M) {
 	kit.Main(m, "C16", "exploration",
 		"session caching on, sizes 1-3, every session-cache eviction policy (default slru, lru, lfu, tinylfu), expiry 0 / 2 s / 1 min on the virtual clock, per-session and shared IK caches. "+
-			"(1) rapid state machine: get a session (more partitions than slots), use a held session (encrypt / decrypt any earlier record of its partition), close a handle, advance the clock, with handles held across other partitions' gets; "+
+			"(0) session caches of capacity 100 / 101 (where the frequency-sketch policies switch on their admission window) walked through by up to 3 x (capacity + 25) gets with re-gets of recent partitions and handles held across them; (1) rapid state machine: get a session (more partitions than slots), use a held session (encrypt / decrypt any earlier record of its partition), close a handle, advance the clock, with handles held across other partitions' gets; "+
 			"(2) concurrent: 2-6 goroutines doing the same under a rapid-drawn delay plan (1-3 pauses) over the yield points in session_cache.go, session.go, pkg/cache/cache.go and key_cache.go, plus every reachable site of session_cache.go and pkg/cache/cache.go as a single preemption for tight configurations. "+
 			"Oracle: every operation on a held session succeeds with the right bytes no matter what was evicted or expired meanwhile; two consecutive GetSession calls for one partition with no other partition requested and no expiry in between return the same underlying session; "+
 			"the tracking SecretFactory never sees a secret read after it was closed nor closed twice; after the factory and the last holders are closed every secret is released (bounded polling for the asynchronous teardown). "+
@@ -434,4 +434,77 @@ func TestSystematicSinglePreemption(t *testing.T) {
 		}
 	}
 	kit.Rec.Enumerated(total, nt)
+}
+
+// TestLargeSessionCaches: the same promises with session caches at and above the capacity
+// (100) from which the frequency-sketch policies switch on their admission window, with more
+// partitions than slots: every handle keeps working, re-gets are shared, and after the factory
+// is closed every session has been torn down exactly once.
+func TestLargeSessionCaches(t *testing.T) {
+	kit.Check(t, 24, 800, func(t *rapid.T) {
+		verifhook.InstallClock(time.Unix(1_700_000_000, 0))
+		defer verifhook.RemoveClock()
+		p := appencryption.NewCryptoPolicy()
+		p.ExpireKeyAfter, p.RevokeCheckInterval, p.CreateDatePrecision = time.Hour, time.Hour, time.Second
+		p.CacheSessions = true
+		p.SessionCacheMaxSize = rapid.SampledFrom([]int{100, 101}).Draw(t, "sessCap")
+		p.SessionCacheEvictionPolicy = rapid.SampledFrom([]string{"tinylfu", "tinylfu", "slru", "lfu", "lru"}).Draw(t, "sessPolicy")
+		p.SessionCacheDuration = time.Hour
+		c := cfg{pol: p, parts: p.SessionCacheMaxSize + rapid.IntRange(1, 25).Draw(t, "extraParts")}
+		e := newEnv(c)
+		bad := func(msg string) {
+			kit.Rec.Violation(msg)
+			t.Fatalf("C16 violated: %s\n  config: %s", msg, c)
+		}
+		held := map[int]*appencryption.Session{}
+		next := 0
+		steps := rapid.IntRange(c.parts, 3*c.parts).Draw(t, "steps")
+		for i := 0; i < steps; i++ {
+			// mostly walk through new partitions, with frequent re-gets of recently used ones
+			part := next
+			if next > 0 && rapid.IntRange(0, 9).Draw(t, "again") < 4 {
+				part = next - 1 - rapid.IntRange(0, min(next-1, 5)).Draw(t, "back")
+			} else if next < c.parts-1 {
+				next++
+			}
+			name := fmt.Sprintf("p%d", part)
+			s, err := e.f.GetSession(name)
+			if err != nil {
+				bad("GetSession(" + name + ") failed: " + err.Error())
+			}
+			s2, err := e.f.GetSession(name)
+			if err != nil || s2 != s {
+				bad(fmt.Sprintf("two back-to-back GetSession(%s) calls returned different underlying sessions", name))
+			}
+			s2.Close()
+			if msg := e.use(s, name, i, fmt.Sprint(i)); msg != "" {
+				bad(msg)
+			}
+			if old := held[part]; old != nil {
+				if msg := e.use(old, name, 2*i+1, "held"); msg != "" {
+					bad(msg + " (handle held across other partitions' gets)")
+				}
+				old.Close()
+				delete(held, part)
+			}
+			if rapid.IntRange(0, 9).Draw(t, "hold") < 2 {
+				held[part] = s
+			} else {
+				s.Close()
+			}
+		}
+		for part, s := range held {
+			if msg := e.use(s, fmt.Sprintf("p%d", part), 1, "final"); msg != "" {
+				bad(msg + " (final use)")
+			}
+			s.Close()
+		}
+		if msg := e.finish(); msg != "" {
+			bad(msg)
+		}
+		kit.Rec.Case(fmt.Sprintf("large|%s|%d", c, steps), true, func() any {
+			return map[string]any{"config": c.String(), "gets": 2 * steps}
+		})
+		kit.Rec.Label("large-session-cache:" + p.SessionCacheEvictionPolicy)
+	})
 }
